@@ -76,6 +76,17 @@ def reset_event_counter() -> None:
     global _global_event_counter
     _global_event_counter = count()
 
+def _advance_global_event_counter(floor: int) -> None:
+    """Make the global counter continue no lower than ``floor``.
+
+    Called when a run context is left so that events created outside the run
+    (e.g. while paused) sort after every event created during it: creation
+    order stays the tie-break across run()/pause boundaries.
+    """
+    global _global_event_counter
+    _global_event_counter = count(max(_global_event_counter.__next__(), floor))
+
+
 # Event-level tracing flag — disabled by default for performance.
 # When enabled, Event.invoke() records stack/trace spans in event.context.
 # The visual debugger enables this via enable_event_tracing().
